@@ -250,8 +250,15 @@ def r7_label_order(ctx):
     ctx.ob(f.where, "sequence under intervals: index rows are looked up by chromosome code in a table built in the order of the chromosome encoding's labels "
                     "(genome order may differ from FASTA file order)", ok, c[:160], key="C10-R7|label-order")
     gs = ix.func(f"{GD}.genomic_sequence", "GenomicSequence.extract_intervals")
-    txt = u(gs.node)
-    ok = "sequences = self._extract_intervals(intervals)" in txt and "sequences = dna_encode(sequences)" in txt
+    # every returned value is dna_encode(self._extract_intervals(<the intervals parameter>)), possibly strand-selected: locals inlined, so the spelling of the steps is free
+    ivp = gs.params[1]
+    genv = {}
+    for n_ in linear_body(gs.node):
+        if isinstance(n_, ast.Assign) and isinstance(n_.targets[0], ast.Name):
+            genv[n_.targets[0].id] = inline_locals(n_.value, genv)
+    grets = [inline_locals(r.value, genv) for r in body_walk(gs.node) if isinstance(r, ast.Return) and r.value is not None]
+    core = f"dna_encode(self._extract_intervals({ivp}))"
+    ok = bool(grets) and all(core in u(r) and u(r).replace(core, "").count("_extract_intervals") == 0 for r in grets)
     ctx.ob(gs.where, "sequence under intervals is fetched per interval from the indexed file and DNA-encoded", ok, "", key="C10-R7|extract")
 
 
